@@ -4,6 +4,7 @@ CONSTANTS
   Vals <- AllScalars
   Dflts <- SomeDflts
   Keys = {"a"}
+  PathKeys <- NoPaths
   MaxHandles = 3
   MaxLen = 2
   Ops <- ScalarOps
